@@ -30,7 +30,8 @@ def run_threads(cfg, preempt=None, opcode=False):
     from reactivex.internal.priorityqueue import PriorityQueue
     from reactivex.scheduler.scheduleditem import ScheduledItem
 
-    ctl = Ctl(targets=EL_FILES, preempt=preempt, opcode=opcode, max_steps=cfg.get("max_steps", 4000))
+    ctl = Ctl(targets=EL_FILES + (("reactivex/scheduler/newthreadscheduler.py",) if cfg.get("kind", "el") != "el" else ()),
+              preempt=preempt, opcode=opcode, max_steps=cfg.get("max_steps", 4000), early=cfg.get("early_timeouts"))
     ev = ctl.ev
 
     class LItem(ScheduledItem):
@@ -181,9 +182,10 @@ def run_threads(cfg, preempt=None, opcode=False):
                     ctl.thread_factory(fn).start()
                     return StubFuture()
 
-            saved = (ntm.EventLoopScheduler, tpm.ThreadPoolExecutor)
+            saved = (ntm.EventLoopScheduler, tpm.ThreadPoolExecutor, ntm.threading)
             ntm.EventLoopScheduler = make_inst
             tpm.ThreadPoolExecutor = StubExecutor
+            ntm.threading = ctl.threading_shim("nt", "nt")  # schedule_periodic's `disposed` Event
             sched = ntm.NewThreadScheduler(thread_factory=ctl.thread_factory) if kind == "newthread" else tpm.ThreadPoolScheduler()
         handles = {}
 
@@ -226,6 +228,24 @@ def run_threads(cfg, preempt=None, opcode=False):
                 elif k == "tick":
                     ev("tick", op[1])
                     ctl.advance(op[1])
+                elif k == "periodic":
+                    # ["periodic", lbl, period_us, cost_us]: every tick takes cost_us of (controlled) time
+                    lbl, period, cost = op[1], op[2], op[3]
+
+                    def tick_action(state, lbl=lbl, cost=cost):
+                        ev("ptick_start", lbl, ctl.clock)
+                        if cost:
+                            ctl.sleep(cost / 1e6)
+                        ev("ptick_end", lbl)
+                        return state
+
+                    handles[lbl] = sched.schedule_periodic(timedelta(microseconds=period), tick_action)
+                elif k == "sleep":
+                    ctl.sleep(op[1] / 1e6)
+                elif k == "pcancel":
+                    ev("pdispose_call", op[1])
+                    handles[op[1]].dispose()
+                    ev("pdispose_ret", op[1])
                 else:
                     raise ValueError(op)
 
@@ -235,7 +255,7 @@ def run_threads(cfg, preempt=None, opcode=False):
             status = ctl.run(timeout=cfg.get("timeout", 120.0))
         finally:
             if kind != "el":
-                ntm.EventLoopScheduler, tpm.ThreadPoolExecutor = saved
+                ntm.EventLoopScheduler, tpm.ThreadPoolExecutor, ntm.threading = saved
 
         def final_of(sc):
             return {"disposed": sc.__dict__["disposed_"], "thread_none": sc.__dict__["thread_"] is None,
@@ -318,6 +338,35 @@ def split_instances(cfg, res):
         ires = {"status": res["status"], "events": sub, "n": 1, "final": res["finals"].get(lbl), "thread_exc": []}
         out[lbl] = (icfg, ires)
     return out
+
+
+def oracle_periodic(cfg, res):
+    """NewThreadScheduler.schedule_periodic (also ThreadPoolScheduler): a tick starts only after the `disposed` flag was consulted
+    and found clear; once dispose() has set it, no further tick starts ("cancelled before it starts never runs") and the thread
+    ends.  The linearisation point of "a tick starts" is that read of the flag."""
+    ev = res["events"]
+    set_pos = None
+    last_obs = {}  # thread -> (pos, value) of its latest observation of the flag since its last tick ended
+    for pos, e in enumerate(ev):
+        t, k = e[0], e[1]
+        if k == "evset" and set_pos is None:
+            set_pos = pos
+        elif k in ("ev_is_set", "ev_wait_ret") and t is not None:
+            last_obs[t] = (pos, e[3])
+        elif k == "ptick_end":
+            last_obs.pop(t, None)
+        elif k == "ptick_start":
+            obs = last_obs.get(t)
+            if obs is not None and obs[1]:
+                return f"periodic action {e[2]}: a tick started although the disposed flag had been read as set"
+            if set_pos is not None and (obs is None or obs[0] > set_pos):
+                why = "without consulting the disposed flag" if obs is None else "after the flag was read as clear AFTER dispose() set it"
+                return f"periodic action {e[2]}: a tick started at {e[3]} after dispose() had set the flag, {why}"
+    if res["status"] in ("steplimit", "deadlock"):
+        return f"run ended with status {res['status']} (the periodic thread never ends after dispose)"
+    if res["thread_exc"]:
+        return f"a thread raised: {res['thread_exc']}"
+    return None
 
 
 def oracle_private_loops(cfg, res):
